@@ -26,7 +26,7 @@ ASSUMPTIONS = ["output period a whole multiple of dt (the statement's validity c
 
 S0 = world.tosec("2020-03-01T00:00:00")
 DT = 60
-PROTOS = ["out.nc", "out_07.nc", "a_42_007.nc", "exp10_01.nc", "drift_2000_000.nc", "r_7_77.nc"]
+PROTOS = ["out.nc", "out_07.nc", "a_42_007.nc", "exp10_01.nc", "drift_2000_000.nc", "r_7_77.nc", "long_9998.nc", "w_99.nc", "run_10000.nc"]  # the last two: the counter grows by a digit
 
 
 def bounds(tier, seed):
